@@ -44,8 +44,6 @@ def handler(case):
             viols.append(("c06.still-shedding", f"{b.name} still sheds load at the end of the quiet period"))
     auto = case["spec"]["ctrl"]["type"] == "main"
     sig = (len(v.lines), last_failed > 0, (normal_from or 0) - last_failed, bool(case["spec"].get("mg")), auto)
-    if auto:
-        ops, impl = [], []
     return dict(ops=ops, impl=impl, viols=viols[:3], nontrivial=sig, tag="auto" if auto else "manual")
 
 
